@@ -324,6 +324,14 @@ class Gen:
         parents = [h for h in self.tree if self.child_options(h)]
         generated = [h for h in self.tree if h.startswith('g_')]
         nested = [(c, p) for c, p in self.tree.items() if c in generated and p in generated]
+        if self.rng.random() < 0.04 and parents:
+            # a descriptor below a parent that does not exist (entity interface: SourceMds is preset, so only the commit
+            # can notice): must be rejected as a whole
+            p = self.rng.choice(parents)
+            acts = [['add', f'g_{self.fresh()}', f'no_such_parent_{self.fresh()}', self.child_options(p)[0], self.fresh(), None]]
+            if self.rng.random() < 0.5:
+                acts.insert(0, ['upd', p, self.fresh()])     # ... together with a legal update that must not survive
+            return {'k': 'descr', 'iface': 'entity', 'actions': acts, 'orphan': True}
         if nested and self.rng.random() < 0.25:
             # one transaction that removes a subtree AND touches something inside it
             c, p = self.rng.choice(nested)
